@@ -622,12 +622,12 @@ class World:
                 out.append(("log", None, str(ev.get("message"))[:200]))
         return out
 
-    def start_relay(self, port=4001):
+    def start_relay(self, port=4001, ip="10.0.0.200"):
         """the real wormhole_transit_relay protocol listening on the sim network"""
         from twisted.internet import protocol as tprotocol
         from wormhole_transit_relay.transit_server import Transit, TransitConnection
         from wormhole_transit_relay.usage import create_usage_tracker
-        node = NodeReactor(self, "relay", "10.0.0.200")
+        node = NodeReactor(self, "relay", ip)
         usage = create_usage_tracker(blur_usage=None, log_file=None, usage_db=None)
         f = tprotocol.ServerFactory()
         f.protocol = TransitConnection
@@ -635,7 +635,7 @@ class World:
         f.transit = Transit(usage, self.clock.seconds)
         node.listenTCP(port, f)
         self.relay_node = node
-        return "tcp:10.0.0.200:%d" % port
+        return "tcp:%s:%d" % (ip, port)
 
     def node(self, name=None):
         n = len(self.clients)
